@@ -335,11 +335,13 @@ def r4(ctx):
     ret = calls_ending(gc_, "_return_conn")
     ctx.require(ret, "no _return_conn() call in _ConnectionRecord.checkin")
     drained = True
+    cleared = call_nodes(gc_, lambda nm, c: nm.endswith("finalize_callback.clear"))
     for n in ret:
         atoms = []
         for t, pol in gc_.edge_guards(n):
             atoms.extend(test_atoms(t, pol))
-        if ("self.finalize_callback", False) not in atoms:
+        # ... or the pending finalisers were discarded (error path that invalidates the record: nothing left to reset)
+        if ("self.finalize_callback", False) not in atoms and not (cleared and gc_.always_preceded(n, cleared) is None):
             drained = False
     ctx.check(drained, fc.key + ":drain-before-return",
               "_return_conn() is reachable while finalize_callback may still hold finalisers",
@@ -812,6 +814,8 @@ def r7(ctx):
                     continue
                 n_ret += 1
                 sinks = [op for op in effects if _is_iso_sink(callee_of(op))]
+                if any(callee_of(op).endswith(".reset_isolation_level") and not callee_of(op).startswith("self.") for op in effects):
+                    continue        # an override that delegates to the base implementation (judged on its own)
                 extra = ", ".join(f"{k}={v}" for k, v in sorted(assign.items()) if k not in scen)
                 if not sinks:
                     bad = bad or f"a path{' (' + extra + ')' if extra else ''} returns without setting any isolation level"
@@ -1254,3 +1258,14 @@ R.mutant("benign-onconnect-hook-level-through-local", DEF,
              "                self._assert_and_set_isolation_level(\n                    dbapi_conn, self._on_connect_isolation_level\n                )\n",
              "        level = self._on_connect_isolation_level\n        if level is not None:\n\n            def builtin_connect(dbapi_conn, conn_rec):\n"
              "                self._assert_and_set_isolation_level(dbapi_conn, level)\n"), None)
+# the fix proposed for the pool-slot leak on the unchanged tree (findings/C24_failing_finaliser_leaks_pool_slot.py)
+R.mutant("benign-checkin-failing-finaliser-invalidated-returned-reraised", POOL,
+         sub(_DRAIN,
+             "        try:\n" + _DRAIN.replace("\n        ", "\n            ").replace("        while", "            while", 1)
+             + "        except BaseException as err:\n            self.finalize_callback.clear()\n            self.invalidate(e=err)\n"
+               "            pool._return_conn(self)\n            raise\n"), None)
+R.mutant("checkin-failing-finaliser-returned-without-invalidation", POOL,
+         sub(_DRAIN,
+             "        try:\n" + _DRAIN.replace("\n        ", "\n            ").replace("        while", "            while", 1)
+             + "        except BaseException:\n            self.finalize_callback.clear()\n"
+               "            pool._return_conn(self)\n            raise\n"), "C24-R4")
